@@ -14,13 +14,15 @@ import (
 // chain, pool, duplicate lookups and the property evaluated on the real chain. Validated by
 // ChainTx_Trace.
 //
-// options: n (traces), len (events per trace), ids (transaction ids), lo / hi (TxHeight window).
+// options: n (traces), len (events per trace), ids (transaction ids), lo / hi (TxHeight window),
+// dcs (defCacheSize of the node). About one event in eleven is the start-up cache rebuild (Reinit).
 func recordDefault(env *core.Env, emit func(map[string]any)) (*core.Summary, error) {
 	sum := &core.Summary{Counters: map[string]int{}}
 	ntr := env.OptInt("n", 4)
 	length := env.OptInt("len", 10)
 	ids := env.OptInt("ids", 6)
 	lo, hi := int64(env.OptInt("lo", 1)), int64(env.OptInt("hi", 1))
+	w.dcs = int64(env.OptInt("dcs", 0))
 	if err := w.init(env.Seed, lo, hi); err != nil {
 		return nil, err
 	}
@@ -81,7 +83,9 @@ func recordDefault(env *core.Env, emit func(map[string]any)) (*core.Summary, err
 		rejected, above := 0, 0
 		for e := 0; e < length; e++ {
 			var s core.Step
-			switch x := r.Intn(10); {
+			switch x := r.Intn(11); {
+			case x == 10 && above >= 1:
+				s = core.Step{"op": "Reinit"}
 			case x < 3:
 				i := inst()
 				s = core.Step{"op": "Submit", "x": []any{float64(i[0].(int)), i[1]}}
